@@ -1,12 +1,111 @@
-(* Property C06 — statements only.  Each theorem is closed by [exact] of a lemma proved in
-   the C06/ files; Print Assumptions is evaluated by ./check on every run. *)
+(* Property C06 — a Tree's state depends only on where it is, not on how it got there.
+   Statements only: each theorem is closed by [exact] of a lemma proved in the C06/ files;
+   Print Assumptions is evaluated by ./check on every run.
+
+   Vocabulary (C06/Model.v, C06/Theorems.v):
+     run m ts ops        the Python-level interpreter: a new Tree (and a second one for
+                         copy / swap) of ts, then ops; result = final (cur, other) trees and
+                         the list of return values / exception classes
+     core                the modelled state is index, interval, cursors, parent array, edge
+                         array (tracked counts untouched); full = with tracked counts
+     valid_tsb ts        boolean validity of (edges, insertion/removal index, breakpoints):
+                         evaluated to true on every correspondence case of every run
+     finite_op           every op except seek(NaN)
+     abs t               (index, left, right, parent array, edge array)
+     fresh_ops k         [] for k = -1, [seek_index k] otherwise: "a fresh Tree moved there"
+   Non-vacuity: Example ex_ts_valid / ex_ops_finite / ex_run in C06/Theorems.v (a 4-tree
+   sequence and a 13-op sequence meeting every hypothesis below). *)
 From Coq Require Import List ZArith.
-From TskVerif Require Import Base.Common C06.Model C06.BasicProofs.
+From TskVerif Require Import Base.Common C06.Model C06.BasicProofs C06.ListFacts C06.Valid
+  C06.CursorProofs C06.NavProofs C06.Theorems.
+Import ListNotations.
 Open Scope Z_scope.
 
-(* Tree.next() / Tree.prev() return False exactly when the tree enters the null state. *)
+(* (a) After any finite op sequence the tree_pos cursors of both trees equal the counting
+   characterisation of the current tree [a, b): FORWARD in.stop = #{left <= a},
+   out.stop = #{right <= a}; REVERSE out.stop = #{left < b} - 1, in.stop = #{right < b} - 1.
+   (FULL statement; also: the run never reads out of bounds and never runs out of fuel.) *)
+Theorem cursor_invariant : forall ts ops, valid_tsb ts = true -> Forall finite_op ops ->
+  exists st outs, run core ts ops = Ok (st, outs) /\ cursor_ok ts (fst st) /\ cursor_ok ts (snd st).
+Proof. exact cursor_invariant_proof. Qed.
+
+(* (b1) After any finite op sequence index / interval / parent array / edge array are those
+   the rows define for the current index (parent_at / edges_at = the SPEC), or those of the
+   null tree. *)
+Theorem nav_state_is_spec : forall ts ops, valid_tsb ts = true -> Forall finite_op ops ->
+  exists st outs, run core ts ops = Ok (st, outs) /\ spec_state ts (fst st) /\ spec_state ts (snd st).
+Proof. exact nav_state_is_spec_proof. Qed.
+
+(* (b2) ... hence identical to a fresh Tree moved directly to the same index.
+   PARTIAL with respect to the property text: [abs] covers index, interval, parent and edge
+   arrays.  Full statement: the same with abs extended by num_edges, children sets, sample
+   counts, roots, sample lists (tied by correspondence + oracle only; C01 owns those views),
+   and by sites / tracked counts — for which it is FALSE: nav_sites_refuted,
+   nav_tracked_refuted. *)
+Theorem nav_canonical_partial : forall ts ops, valid_tsb ts = true -> Forall finite_op ops ->
+  exists st outs, run core ts ops = Ok (st, outs) /\
+  exists fr outs', run core ts (fresh_ops (t_index (fst st))) = Ok (fr, outs') /\
+                   abs (fst st) = abs (fst fr).
+Proof. exact nav_canonical_proof. Qed.
+
+(* (c1) Tree.next() / Tree.prev() return False exactly when the tree enters the null state
+   (any state, any mode; no hypothesis needed). *)
 Theorem next_prev_false_iff_null : forall m ts st o st' r,
   o = OpNext \/ o = OpPrev ->
   py_step m ts st o = Ok (st', r) ->
   (r = 0 /\ t_index (fst st') = -1) \/ (r = 1 /\ t_index (fst st') <> -1).
 Proof. exact next_prev_ret. Qed.
+
+(* (c2) ... and in every reachable state the call succeeds and moves to index+1 / index-1,
+   wrapping through the null state (nxt / prv). *)
+Theorem next_prev_index : forall ts ops o, valid_tsb ts = true -> Forall finite_op ops ->
+  o = OpNext \/ o = OpPrev ->
+  exists st outs st' r, run core ts ops = Ok (st, outs) /\ py_step core ts st o = Ok (st', r) /\
+    t_index (fst st') = (match o with OpNext => nxt ts | _ => prv ts end) (t_index (fst st)) /\
+    (r = 0 <-> t_index (fst st') = -1) /\ (r = 0 \/ r = 1).
+Proof. exact next_prev_index_proof. Qed.
+
+(* (d) In every reachable state seek(x) with 0 <= x < L returns None, leaves the other tree
+   alone and lands on the tree whose interval contains x. *)
+Theorem seek_lands : forall ts ops v, valid_tsb ts = true -> Forall finite_op ops -> 0 <= v < ts_L ts ->
+  exists st outs st', run core ts ops = Ok (st, outs) /\
+    py_step core ts st (OpSeek (Fin v)) = Ok (st', RET_NONE) /\
+    t_left (fst st') <= v < t_right (fst st') /\ snd st' = snd st.
+Proof. exact seek_lands_proof. Qed.
+
+(* (e) tsk_tree_seek terminates: every fuel >= num_trees + 1 (loop tests of
+   tsk_tree_seek_linear) gives the same Ok result in every reachable state. *)
+Theorem seek_linear_terminates : forall ts ops v, valid_tsb ts = true -> Forall finite_op ops ->
+  0 <= v < ts_L ts ->
+  exists st outs t', run core ts ops = Ok (st, outs) /\
+    forall fuel, Z.of_nat fuel >= num_trees ts + 1 -> tree_seek fuel core ts (fst st) (Fin v) = Ok t'.
+Proof. exact seek_linear_terminates_proof. Qed.
+
+(* F4 (general form): in every reachable non-null state Tree.seek(NaN) passes both guards and
+   tsk_tree_seek_linear exhausts every fuel. *)
+Theorem seek_nan_diverges : forall ts ops, valid_tsb ts = true -> Forall finite_op ops ->
+  exists st outs, run core ts ops = Ok (st, outs) /\
+    (t_index (fst st) <> -1 -> forall fuel, py_step_fuel fuel core ts st (OpSeek NaN) = Fuel).
+Proof. exact seek_nan_diverges_proof. Qed.
+
+(* F4 (witness): such a state exists — "seek always lands / returns" is refuted for NaN. *)
+Theorem seek_nan_diverges_refuted :
+  exists ts ops st outs, valid_tsb ts = true /\ Forall finite_op ops /\
+    run core ts ops = Ok (st, outs) /\ t_index (fst st) = 0 /\
+    forall fuel, py_step_fuel fuel core ts st (OpSeek NaN) = Fuel.
+Proof. exact seek_nan_diverges_refuted_proof. Qed.
+
+(* F14: history independence of the site list is refuted (first(); clear() keeps tree 0's sites). *)
+Theorem nav_sites_refuted :
+  exists ts ops st outs, valid_tsb ts = true /\ Forall finite_op ops /\
+    run core ts ops = Ok (st, outs) /\ t_index (fst st) = -1 /\
+    t_sites (fst st) <> t_sites (tree_init ts).
+Proof. exact nav_sites_refuted_proof. Qed.
+
+(* F15: history independence of tracked-sample counts is refuted (internal sample node). *)
+Theorem nav_tracked_refuted :
+  exists ts ops st outs fr outs', valid_tsb ts = true /\ Forall finite_op ops /\
+    run full ts ops = Ok (st, outs) /\
+    run full ts (fresh_ops (t_index (fst st))) = Ok (fr, outs') /\
+    t_index (fst st) = t_index (fst fr) /\ t_tracked (fst st) <> t_tracked (fst fr).
+Proof. exact nav_tracked_refuted_proof. Qed.
